@@ -16,6 +16,13 @@ from .values import (Sym, SV, SList, SSet, SOpt, FuncRef, ModuleRef, ClassRef, O
 MAX_INLINE_DEPTH = 6
 
 
+class RaisedIn:
+    """info slot of a pending raise that happened inside an inlined callee: the state of that path"""
+
+    def __init__(self, state, info):
+        self.state, self.info = state, info
+
+
 class CallMixin:
     # ------------------------------------------------------------------ call expression
     def ev_Call(self, node, st):
@@ -176,7 +183,8 @@ class CallMixin:
             extra = o.state.pc[len(st.pc):]
             cond = z3.And(*extra) if extra else z3.BoolVal(True)
             if o.kind == "raise":
-                self.pending.append((cond, o.value, o.info))
+                # the raising path keeps its own path condition and heap (the caller's state moves on to the returning paths)
+                self.pending.append((cond, o.value, RaisedIn(State(dict(st.env), o.state.pc, o.state.heap, o.state.log, o.state.ghost), o.info)))
             elif o.kind in ("return", "normal"):
                 rets.append((cond, o.value if o.kind == "return" else None, o.state))
             else:
@@ -364,7 +372,9 @@ class CallMixin:
         cx0 = Ctx(self, st, st)
         vals = {p: env[p] for p in con.params}
         for label, fn in con.requires:
-            st.pc = st.pc + (self.as_bool(fn(cx0, **vals)),)
+            f = self.as_bool(fn(cx0, **vals))
+            # one hypothesis per top-level conjunct (finer relevance filtering in the solver portfolio)
+            st.pc = st.pc + (tuple(f.children()) if z3.is_and(f) and f.num_args() > 1 else (f,))
         for ax in con.ghost.get("axioms", []):
             st.pc = st.pc + (ax() if callable(ax) else ax,)     # definitions of ghost functions (closed formulas)
         self.entry_state = st.copy()
